@@ -89,12 +89,23 @@ theorem ostep_newSpecialSymbol (sh : Shared D L) (sym : Sym) : OStep sh (newSpec
   · exact ostep_panic _ _
   · exact ostep_fuel _
 
+theorem ostep_openSymbol (sh : Shared D L) : OStep sh (openSymbol env sh) := by
+  intro sh' t h
+  obtain ⟨rfl, _⟩ := openSymbol_cases env h
+  rfl
+
+theorem ostep_openSpecialSymbol (sh : Shared D L) (sym : Sym) : OStep sh (openSpecialSymbol env sh sym) := by
+  intro sh' t h
+  rcases openSpecialSymbol_cases env h with ⟨h1, _⟩ | ⟨_, rfl⟩
+  · exact ostep_newSpecialSymbol sh sym sh' t h1
+  · rfl
+
 theorem ostep_startSelecting (sh : Shared D L) : OStep sh (startSelecting env sh) := by
   unfold startSelecting
   repeat' split
   all_goals first
     | exact ostep_openPhrase env _
-    | exact ostep_newSpecialSymbol _ _
+    | exact ostep_openSpecialSymbol env _ _
     | ostep_leaf
 
 theorem ostep_startSelectingOrInputSpace (sh : Shared D L) : OStep sh (startSelectingOrInputSpace env sh) := by
@@ -102,7 +113,7 @@ theorem ostep_startSelectingOrInputSpace (sh : Shared D L) : OStep sh (startSele
   repeat' split
   all_goals first
     | exact ostep_openPhrase env _
-    | exact ostep_newSpecialSymbol _ _
+    | exact ostep_openSpecialSymbol env _ _
     | ostep_leaf
 
 /-! learning and committing never touch the options -/
@@ -223,6 +234,7 @@ theorem ostep_enteringDefault (sh : Shared D L) (ev : KeyEvent) : OStep sh (ente
     | exact ostep_inputChar _ _
     | exact ostep_chineseFallback _ _
     | exact ostep_chineseFallback { sh with syl := (env.keyPress sh.syl ev).2 } ev
+    | exact ostep_openSymbol env _
     | ostep_leaf
 
 theorem ostep_enteringCtrlDigit (sh : Shared D L) (c : Nat) : OStep sh (enteringCtrlDigit env sh c) := by
@@ -230,6 +242,7 @@ theorem ostep_enteringCtrlDigit (sh : Shared D L) (c : Nat) : OStep sh (entering
   repeat' (first | split | (dsimp only; split))
   all_goals first
     | exact ostep_learnTrans env _ _ _
+    | exact ostep_openSymbol env _
     | ostep_leaf
 
 theorem ostep_enteringTabInside (sh : Shared D L) : OStep sh (enteringTabInside env sh) := by
